@@ -154,6 +154,12 @@ func (amf0) WriteBoolean(writer io.Writer, b bool) error {
 }
 
 func (amf0) WriteObject(writer io.Writer, opa ObjectPairArray) error {
+	// key的长度字段只有16位，没有long form，超长的key无法编码
+	for i := 0; i < len(opa); i++ {
+		if len(opa[i].Key) > 65535 {
+			return fmt.Errorf("lal.rtmp: amf0 object key too long. len=%d", len(opa[i].Key))
+		}
+	}
 	if _, err := writer.Write([]byte{Amf0TypeMarkerObject}); err != nil {
 		return err
 	}
